@@ -9,7 +9,7 @@ pub fn scenario(tier: &str) -> (Life, Bounds) {
         name: "c03",
         periods: if th { 5 } else { 3 },
         devs: if th { 2 } else { 1 },
-        bases: if th { vec!["one-deadline", "two-deadlines", "one-deadline-aged", "two-deadlines-aged"] } else { vec!["one-deadline-aged", "two-deadlines", "one-deadline-aged-pc"] },
+        bases: if th { vec!["one-deadline", "two-deadlines", "one-deadline-aged", "two-deadlines-aged", "mixed-expiry-aged"] } else { vec!["one-deadline-aged", "two-deadlines", "one-deadline-aged-pc", "mixed-expiry-aged"] },
         oracles: Oracles { c03: true, ..Default::default() },
         sector_sets: if th { sets_all() } else { sets_small() },
         known_open: mcx::evidence::known_open("C03"),
@@ -21,6 +21,7 @@ pub fn scenario(tier: &str) -> (Life, Bounds) {
         big: false,
         tick_faults: false,
         bystander: false,
+        extensions: true,
     };
     let b = if th {
         Bounds { max_depth: 400, wall_cap_s: 1500.0, ..Default::default() }
